@@ -33,7 +33,7 @@ def _smt_sign(facts, pc, q, op, timeout_ms=4000):
     return s.check() == z3.unsat
 
 
-def prove_sign(c, facts, pc, hyps, t, op, hints, signfacts, cert_timeout=20):
+def prove_sign(c, facts, pc, hyps, t, op, hints, signfacts, cert_timeout=40):
     """returns a justification string or None"""
     t = T.lift(t)
     if _smt_sign(facts, pc, t, op, 1500):
